@@ -1646,10 +1646,16 @@ func (r *Raft) appendEntries(rpc RPC, a *AppendEntriesRequest) {
 		metrics.MeasureSince([]string{"raft", "rpc", "appendEntries", "storeLogs"}, start)
 	}
 
-	// Update the commit index
-	if a.LeaderCommitIndex > 0 && a.LeaderCommitIndex > r.getCommitIndex() {
+	// Update the commit index. Only what this request has checked is known to
+	// match the leader's log: its previous entry and the entries it carried.
+	// Whatever we hold beyond that may be a stale suffix, so the commit index
+	// follows the leader up to the last checked entry and no further.
+	lastChecked := a.PrevLogEntry
+	if n := len(a.Entries); n > 0 {
+		lastChecked = a.Entries[n-1].Index
+	}
+	if idx := min(min(a.LeaderCommitIndex, lastChecked), r.getLastIndex()); idx > r.getCommitIndex() {
 		start := time.Now()
-		idx := min(a.LeaderCommitIndex, r.getLastIndex())
 		verifHook("commit.follower", r, r.getCommitIndex(), idx, r.getLastIndex(), a.Term)
 		r.setCommitIndex(idx)
 		if r.configurations.latestIndex <= idx {
